@@ -122,6 +122,14 @@ def check_pool(C, rec, label, insts, hists, classes_md):
         d.update(kw)
         return d
 
+    for i, x in enumerate(insts):  # first pass: repr in pool order (parents before children), before any other use
+        try:
+            r = x.__repr__(indent=False)
+            want = [nm for nm, a in type(x).__spec_class__.attrs.items() if a.repr]
+            if repr_names(r) != want:
+                C.viol(violation(PROP, sig("repr_attribute_list", when="first_render"), {"repr": r[:300], "names": repr_names(r), "expected": want}, case([i])))
+        except Exception as e:
+            C.viol(violation(PROP, sig("repr_raised", error=type(e).__name__, when="first_render"), {"error": repr(e)[:200]}, case([i])))
     E = [[None] * n for _ in range(n)]
     for i in range(n):
         for j in range(n):
@@ -213,6 +221,9 @@ def pool_worker(task):
                     hists.append(({"op": "new", "kw": h[0].get("kw", {}), "cls": base.__name__, "shape": "new:base"},))
                 except Exception:
                     pass
+    # base-class instances first: a parent is then compared / rendered strictly before its subclass
+    order = sorted(range(len(insts)), key=lambda i: (type(insts[i]) is env.cls, i))
+    insts, hists = [insts[i] for i in order], [hists[i] for i in order]
     C.inc("states", len(insts))
     for h in hists:
         C.nontrivial(repr(h))
